@@ -3,6 +3,9 @@
    callers, phrased over observable events only.
 
      addStart(p,t) / addEnd(p,t)     producer p calls Add(t) / Add(t) returned     (tasks are unique)
+                                     (the size z that ChunkExecutor.Add(t, z) is called with - any int, 0 and
+                                     negative included - is logged but read by no guard: what is owed to a
+                                     task does not depend on its size)
      waitStart(p)  / waitEnd(p)      p calls Wait() / Wait() returned
      execStart(b,ts) / execEnd(b)    the execute callback received batch ts / returned (or panicked)
      take(ts,thr)                    auxiliary: ts left the container (thr: by the size threshold inside Add);
